@@ -158,10 +158,12 @@ def socket_batch(acc, batch):
     from mc.runner import REPO
 
     pool = Pool(os.path.join(REPO, "src"))
+    prior = []  # what this pool has been through since it was started: part of the case (a pool is not reset between sequences)
     try:
         for n, (seq, ending) in enumerate(batch):
             problems = run_sequence(pool, seq, ending, n)
-            case = dict(kind="socket", seq=list(seq), ending=ending)
+            case = dict(kind="socket", seq=list(seq), ending=ending, prior=[[list(s_), e_] for s_, e_ in prior])
+            prior.append((seq, ending))
             acc.case(key=json.dumps(case), outcome=f"socket ok={not problems}", sample=case)
             acc.extra["real_socket_sequences"] += 1
             acc.extra["traces_validated"] += 1
@@ -171,6 +173,7 @@ def socket_batch(acc, batch):
                 # a wedged pool would fail every later sequence too: start a fresh one so that each report stands for itself
                 pool.stop()
                 pool = Pool(os.path.join(REPO, "src"))
+                prior = []
     finally:
         pool.stop()
 
